@@ -1,0 +1,283 @@
+//! Verification hooks for the per-remote state (`socket::remote_map`) and the default
+//! path selector.  Only compiled with `--cfg iroh_verif`; used by the conformance
+//! harness of the model-based checks.  Thin public wrappers over crate-private items:
+//! no logic of their own beyond converting addresses.
+#![allow(missing_docs, missing_debug_implementations, clippy::unwrap_used)]
+
+use std::{net::SocketAddr, time::Duration};
+
+use iroh_base::{CustomAddr, EndpointId, RelayUrl};
+use tokio::sync::oneshot;
+
+use crate::{
+    address_lookup::AddressLookupFailed,
+    socket::{
+        biased_rtt_path_selector::BiasedRttPathSelector,
+        remote_map::{
+            PathSelectionContext, PathSelectionData, PathSelector, RemoteInfo,
+            verif_hooks as rm, verif_path_state::{self as ps, VStatus},
+            verif_remote_state as rs,
+        },
+        transports,
+    },
+};
+
+/// Public mirror of the crate-private `transports::Addr`.
+#[derive(Debug, Clone, PartialEq, Eq, Hash, PartialOrd, Ord)]
+pub enum VAddr {
+    Ip(SocketAddr),
+    Relay(RelayUrl, EndpointId),
+    Custom(CustomAddr),
+}
+
+impl VAddr {
+    fn to_addr(&self) -> transports::Addr {
+        match self {
+            VAddr::Ip(a) => transports::Addr::Ip(*a),
+            VAddr::Relay(u, e) => transports::Addr::Relay(u.clone(), *e),
+            VAddr::Custom(c) => transports::Addr::Custom(c.clone()),
+        }
+    }
+    fn from_addr(a: &transports::Addr) -> Self {
+        match a {
+            transports::Addr::Ip(a) => VAddr::Ip(*a),
+            transports::Addr::Relay(u, e) => VAddr::Relay(u.clone(), *e),
+            transports::Addr::Custom(c) => VAddr::Custom(c.clone()),
+        }
+    }
+}
+
+/// Public mirror of the private `PathStatus` (close time in ms after a base instant).
+#[derive(Debug, Clone, Copy, PartialEq, Eq)]
+pub enum VPathStatus {
+    Open,
+    Inactive(u64),
+    Unusable,
+    Unknown,
+}
+
+impl VPathStatus {
+    fn to_inner(self) -> VStatus {
+        match self {
+            VPathStatus::Open => VStatus::Open,
+            VPathStatus::Inactive(t) => VStatus::Inactive(t),
+            VPathStatus::Unusable => VStatus::Unusable,
+            VPathStatus::Unknown => VStatus::Unknown,
+        }
+    }
+    fn from_inner(s: VStatus) -> Self {
+        match s {
+            VStatus::Open => VPathStatus::Open,
+            VStatus::Inactive(t) => VPathStatus::Inactive(t),
+            VStatus::Unusable => VPathStatus::Unusable,
+            VStatus::Unknown => VPathStatus::Unknown,
+        }
+    }
+}
+
+/// `(MAX_NON_RELAY_PATHS, MAX_INACTIVE_NON_RELAY_PATHS)` of the build under test.
+pub fn prune_limits() -> (usize, usize) {
+    ps::LIMITS
+}
+
+/// Runs the real `prune_non_relay_paths` on `input`; returns the surviving addresses.
+pub fn prune_non_relay_paths(input: &[(VAddr, VPathStatus)]) -> Vec<VAddr> {
+    let v = input
+        .iter()
+        .map(|(a, s)| (a.to_addr(), s.to_inner()))
+        .collect();
+    ps::prune(v).iter().map(VAddr::from_addr).collect()
+}
+
+/// Reply of a resolve request as seen on its oneshot channel.
+#[derive(Debug, Clone, PartialEq, Eq)]
+pub enum VReply {
+    /// Not answered yet.
+    Pending,
+    Ok,
+    ErrNoResults,
+    ErrNoService,
+    ErrOther,
+    /// The sender was dropped without an answer.
+    Dropped,
+}
+
+/// Receiver side of one resolve request.
+pub struct VResolveRx(pub(crate) oneshot::Receiver<Result<(), AddressLookupFailed>>);
+
+impl VResolveRx {
+    /// Polls the reply without blocking.  After a non-`Pending` result the receiver is spent
+    /// (further calls report `Dropped`), so callers must remember the first final answer.
+    pub fn poll(&mut self) -> VReply {
+        match self.0.try_recv() {
+            Ok(Ok(())) => VReply::Ok,
+            Ok(Err(AddressLookupFailed::NoResults { .. })) => VReply::ErrNoResults,
+            Ok(Err(AddressLookupFailed::NoServiceConfigured { .. })) => VReply::ErrNoService,
+            #[allow(unreachable_patterns)]
+            Ok(Err(_)) => VReply::ErrOther,
+            Err(oneshot::error::TryRecvError::Empty) => VReply::Pending,
+            Err(oneshot::error::TryRecvError::Closed) => VReply::Dropped,
+        }
+    }
+}
+
+/// How an address lookup run finished (argument of `address_lookup_finished`).
+#[derive(Debug, Clone, Copy, PartialEq, Eq)]
+pub enum VLookupEnd {
+    /// The stream ended after yielding at least one item.
+    Ok,
+    /// All services failed or produced no results.
+    NoResults,
+    /// No service configured.
+    NoService,
+}
+
+/// The real `RemotePathState` with observers.
+pub struct VRemotePathState(ps::VPathState);
+
+impl Default for VRemotePathState {
+    fn default() -> Self {
+        Self::new()
+    }
+}
+
+impl VRemotePathState {
+    pub fn new() -> Self {
+        Self(ps::VPathState::new())
+    }
+    pub fn insert_multiple(&mut self, addrs: &[VAddr]) {
+        self.0
+            .insert_multiple(addrs.iter().map(|a| a.to_addr()).collect());
+    }
+    pub fn insert_open_path(&mut self, addr: &VAddr) {
+        self.0.insert_open_path(addr.to_addr());
+    }
+    pub fn abandoned_path(&mut self, addr: &VAddr) {
+        self.0.abandoned_path(&addr.to_addr());
+    }
+    pub fn resolve_remote(&mut self) -> VResolveRx {
+        VResolveRx(self.0.resolve_remote())
+    }
+    pub fn address_lookup_finished(&mut self, end: VLookupEnd) {
+        use n0_error::e;
+        let r = match end {
+            VLookupEnd::Ok => Ok(()),
+            VLookupEnd::NoResults => {
+                Err(e!(AddressLookupFailed::NoResults { errors: Vec::new() }))
+            }
+            VLookupEnd::NoService => Err(e!(AddressLookupFailed::NoServiceConfigured)),
+        };
+        self.0.address_lookup_finished(r);
+    }
+    pub fn prune_paths(&mut self) {
+        self.0.prune_paths();
+    }
+    pub fn pending_len(&self) -> usize {
+        self.0.pending_len()
+    }
+    pub fn is_empty(&self) -> bool {
+        self.0.is_empty()
+    }
+    pub fn set_status(&mut self, addr: &VAddr, st: VPathStatus) {
+        self.0.set_status(&addr.to_addr(), st.to_inner());
+    }
+    pub fn snapshot(&self) -> Vec<(VAddr, VPathStatus)> {
+        self.0
+            .snapshot()
+            .iter()
+            .map(|(a, s)| (VAddr::from_addr(a), VPathStatus::from_inner(*s)))
+            .collect()
+    }
+}
+
+/// Runs the real `BiasedRttPathSelector::default().select()` over synthetic candidates.
+///
+/// `cands[i] = (addr, Some(rtt))` or `(addr, None)` when the path's stats cannot be read;
+/// `current` is the currently selected path, if any (it need not be among the candidates).
+/// Returns the selected address, or `None` when the selection is empty ("keep current").
+pub fn biased_rtt_select(current: Option<&VAddr>, cands: &[(VAddr, Option<Duration>)]) -> Option<VAddr> {
+    let tuples: Vec<transports::FourTuple> = cands
+        .iter()
+        .map(|(a, _)| transports::FourTuple::from_remote(a.to_addr()))
+        .collect();
+    let current = current.map(|a| transports::FourTuple::from_remote(a.to_addr()));
+    let data: Vec<PathSelectionData<'_>> = tuples
+        .iter()
+        .zip(cands.iter())
+        .map(|(t, (_, rtt))| {
+            let stats = rtt.map(|rtt| {
+                let mut s = noq::PathStats::default();
+                s.rtt = rtt;
+                s
+            });
+            PathSelectionData::for_verif(t, stats)
+        })
+        .collect();
+    let ctx = PathSelectionContext::for_verif(current.as_ref(), data);
+    BiasedRttPathSelector::default()
+        .select(&ctx)
+        .selected()
+        .map(|t| VAddr::from_addr(&t.remote()))
+}
+
+/// Runs the real `RemoteStateActor::select_path` on an actor without connections whose
+/// selected path is `current`.  `pick = Some(x)`: the actor's selector returns `x`
+/// (`None` inside = empty selection); `pick = None`: the default selector, which sees no
+/// candidate paths.  Returns the actor's selected path afterwards.
+pub fn select_path_step(current: Option<&VAddr>, pick: Option<Option<&VAddr>>) -> Option<VAddr> {
+    let ft = |a: &VAddr| transports::FourTuple::from_remote(a.to_addr());
+    rs::select_path_step(current.map(ft), pick.map(|p| p.map(ft)))
+        .map(|t| VAddr::from_addr(&t.remote()))
+}
+
+/// Restarts the numbering of actor instances in lifecycle events.
+pub fn reset_actor_instances() {
+    rs::reset_inst();
+}
+
+/// Label of the pause point between an actor's decision to stop and `inbox.close()`.
+pub const PAUSE_BEFORE_INBOX_CLOSE: &str = "remote_state.before_inbox_close";
+
+/// Reply channel of a `RemoteInfo` request sent with `try_send`.
+pub struct VInfoRx(oneshot::Receiver<RemoteInfo>);
+
+impl VInfoRx {
+    /// `Ok(Some(addrs))` answered, `Ok(None)` pending, `Err(())` dropped without an answer.
+    pub fn poll(&mut self) -> Result<Option<Vec<iroh_base::TransportAddr>>, ()> {
+        match self.0.try_recv() {
+            Ok(info) => Ok(Some(info.into_addrs().map(|a| a.into_addr()).collect())),
+            Err(oneshot::error::TryRecvError::Empty) => Ok(None),
+            Err(oneshot::error::TryRecvError::Closed) => Err(()),
+        }
+    }
+}
+
+/// A real `RemoteMap`, driven like the socket actor drives it.
+pub struct VRemoteMap(rm::VRemoteMap);
+
+impl VRemoteMap {
+    pub fn new(address_lookup: crate::address_lookup::AddressLookupServices) -> Self {
+        Self(rm::VRemoteMap::new(address_lookup))
+    }
+    pub async fn resolve_remote(&mut self, addr: iroh_base::EndpointAddr) -> VResolveRx {
+        VResolveRx(self.0.resolve_remote(addr).await)
+    }
+    pub fn poll_cleanup(&mut self) -> Option<EndpointId> {
+        self.0.poll_cleanup()
+    }
+    pub fn on_network_change(&mut self, is_major: bool) {
+        self.0.on_network_change(is_major);
+    }
+    pub fn sender_state(&self, id: &EndpointId) -> Option<bool> {
+        self.0.sender_state(id)
+    }
+    pub fn try_remote_info(&self, id: &EndpointId) -> Result<VInfoRx, &'static str> {
+        self.0.try_remote_info(id).map(VInfoRx)
+    }
+    pub fn cancel(&self) {
+        self.0.cancel();
+    }
+    pub fn drop_watchable(&mut self) {
+        self.0.drop_watchable();
+    }
+}
